@@ -61,6 +61,16 @@ def lists(tier):
                 out.append(("grid", m, [(bp[1], F(0)), (bp[3], ps[0]), (bp[0], ps[1]), (bp[2], ps[2])]))
             for ps in itertools.combinations(gh, 4):
                 out.append(("grid", m, [(bp[0], F(0)), (bp[1], ps[0]), (bp[2], ps[1]), (bp[3], ps[2]), (bp[1], ps[3])]))
+        # size: lists of 40 / 300 (thorough: 1200) changes, gaps cycling through on-line and off-line values
+        gaps = [F(1, 2), F(3), F(4), F(5, 4), F(8), F(11, 4), F(m), F(2 * m) + F(1, 2)]
+        for n in (40, 300) + ((1200,) if tier == "thorough" else ()):
+            if n == 300 and m not in (4, 3):
+                continue
+            pos, chl = F(0), []
+            for i in range(n):
+                chl.append((bp[i % len(bp)], pos))
+                pos += gaps[i % len(gaps)]
+            out.append(("long", m, chl))
         # epsilon alphabet: a change just after a measure line / a beat line of the running segment
         for k in (0, 1, 4, 5, 8) if m == 4 else (0, 1, 3, 4, 6):
             for e in EPS:
